@@ -1,10 +1,12 @@
 #!/bin/bash
 # Sensitivity self-test: every seeded change (sub-agent written) and every own mutant must be
 # CAUGHT by the quick check of its property.   selftest/seeded.sh [budget_s=15]
+# SEEDED_FILTER=<extended regex> restricts the run to matching ids (several runs can share the cores).
 cd "$(dirname "$0")/.." || exit 2
-B=${1:-15}; fail=0
+B=${1:-15}; fail=0; F=${SEEDED_FILTER:-.}
 for d in seeded/*/; do
   id=$(basename "$d"); prop=${id%%-*}
+  [[ $id =~ $F ]] || continue
   # a change may be a violation of another property than the one it was written for (meta.json says so)
   cp=$(python3 -c "import json,sys; print(json.load(open('$d/meta.json')).get('check_property',''))" 2>/dev/null); [ -n "$cp" ] && prop=$cp
   b=$B; [ "$prop" = C04 ] && b=   # C04's enumerations must complete: no budget override
@@ -14,6 +16,7 @@ for d in seeded/*/; do
 done
 for f in selftest/mutants/C*.diff; do
   id=$(basename "$f" .diff); prop=${id%%-*}
+  [[ $id =~ $F ]] || continue
   r=$(selftest/run_mutant.sh "$prop" "$f" "$B" 2>&1 | grep '^RESULT')
   echo "$id: $(echo "$r" | sed 's/^RESULT [^ ]* [^ ]* //' | cut -c1-200)"
   echo "$r" | grep -q "CAUGHT\|SUITE-FAILS" || fail=1
